@@ -16,10 +16,18 @@ import (
 
 // EnsureDirExists creates directories if the path not exists
 func EnsureDirExists(path string) error {
-	if _, err := os.Stat(path); os.IsNotExist(err) {
-		return os.MkdirAll(path, dirPerm)
+	if err := os.MkdirAll(filepath.Dir(path), dirPerm); err != nil {
+		return err
 	}
-	return os.ErrExist
+	// mkdir of the last component tells atomically who created the directory:
+	// among concurrent callers exactly one does not get os.ErrExist
+	if err := os.Mkdir(path, dirPerm); err != nil {
+		if os.IsExist(err) {
+			return os.ErrExist
+		}
+		return err
+	}
+	return nil
 }
 
 // CreateV1ControllerPath create path for controller with given group, prefix
